@@ -54,7 +54,10 @@ class World:
             b = bytearray(sig)
             b[self.rng.randrange(64)] ^= 1 << self.rng.randrange(8)
             sig = bytes(b)
-        return {'node_id_short': self.node_id(key).hex(), 'signature': sig}
+        hx = self.node_id(key).hex()
+        # hex spelling is free: the same node id may arrive in any letter case
+        hx = self.rng.choice([hx, hx.upper(), ''.join(c.upper() if self.rng.random() < 0.5 else c for c in hx)])
+        return {'node_id_short': hx, 'signature': sig}
 
     def run(self, weights, items, layout=False):
         nodes = [ValidatorDescr('validator', SigPubKey(self.keys[j].verify_key.encode()), w) for j, w in enumerate(weights)]
